@@ -116,10 +116,10 @@ struct LoomOut {
     capped: String,
 }
 
-fn loom_pass(threads: u32, k: usize, bound: usize, cap_s: u64) -> Result<LoomOut, String> {
+fn loom_pass(profile: &str, threads: u32, k: usize, bound: usize, cap_s: u64, tall: usize) -> Result<LoomOut, String> {
     let ws = root().join(LOOM_WS);
-    let bin = ws.join("target/release/loom_pass");
-    let (code, out, err) = sh(Command::new(&bin).args([threads.to_string(), k.to_string(), bound.to_string(), cap_s.to_string()]));
+    let bin = ws.join(format!("target/{profile}/loom_pass"));
+    let (code, out, err) = sh(Command::new(&bin).args([threads.to_string(), k.to_string(), bound.to_string(), cap_s.to_string(), tall.to_string()]));
     let mut lo = LoomOut { serial_execs: 0, serial_outcomes: 0, par_execs: 0, par_outcomes: 0, main_values: 0, has_static_mut: false, rewrites: String::new(), samples: vec![], bad: vec![], aborted: None, capped: String::new() };
     let num = |l: &str, key: &str| -> u64 { l.split_whitespace().find_map(|t| t.strip_prefix(key)).and_then(|v| v.parse().ok()).unwrap_or(0) };
     let mut done = false;
@@ -134,6 +134,10 @@ fn loom_pass(threads: u32, k: usize, bound: usize, cap_s: u64) -> Result<LoomOut
         } else if l.starts_with("PARALLEL ") {
             lo.par_execs = num(l, "executions=");
             lo.par_outcomes = num(l, "outcomes=");
+        } else if l.starts_with("TALL ") {
+            lo.serial_execs += num(l, "serial_executions=");
+            lo.par_execs += num(l, "executions=");
+            lo.par_outcomes += num(l, "outcomes=");
         } else if l.starts_with("COLD ") {
             lo.serial_execs += num(l, "serial_executions=");
             lo.par_execs += num(l, "executions=");
@@ -164,10 +168,13 @@ fn loom_pass(threads: u32, k: usize, bound: usize, cap_s: u64) -> Result<LoomOut
 
 fn build_loom_ws() -> Result<(), String> {
     let ws = root().join(LOOM_WS);
-    let (code, _out, err) = sh(Command::new("cargo").current_dir(&ws).args(["build", "--offline", "--release", "-p", "loom_pass"]));
-    if code != 0 {
-        let tail: String = err.lines().rev().take(30).collect::<Vec<_>>().into_iter().rev().collect::<Vec<_>>().join("\n");
-        return Err(format!("the loom pass does not build against the current treap sources (a primitive that loom does not model, or a rewrite this harness does not know):\n{tail}"));
+    // two builds of the same pass: optimised, and with debug assertions + overflow checks (profile `dbg`)
+    for profile in ["release", "dbg"] {
+        let (code, _out, err) = sh(Command::new("cargo").current_dir(&ws).args(["build", "--offline", "--profile", profile, "-p", "loom_pass"]));
+        if code != 0 {
+            let tail: String = err.lines().rev().take(30).collect::<Vec<_>>().into_iter().rev().collect::<Vec<_>>().join("\n");
+            return Err(format!("the loom pass ({profile}) does not build against the current treap sources (a primitive that loom does not model, or a rewrite this harness does not know):\n{tail}"));
+        }
     }
     Ok(())
 }
@@ -189,7 +196,7 @@ fn confirm(v: &Value) -> Result<(), String> {
         }
         "loom" => {
             build_loom_ws()?;
-            let lo = loom_pass(v["threads"].as_u64().unwrap() as u32, v["k"].as_u64().unwrap() as usize, v["bound"].as_u64().unwrap() as usize, v["cap_s"].as_u64().unwrap_or(60))?;
+            let lo = loom_pass(v["profile"].as_str().unwrap_or("release"), v["threads"].as_u64().unwrap() as u32, v["k"].as_u64().unwrap() as usize, v["bound"].as_u64().unwrap() as usize, v["cap_s"].as_u64().unwrap_or(60), v["tall"].as_u64().unwrap_or(0) as usize)?;
             if let Some(a) = lo.aborted {
                 return Err(format!("loom aborted an execution: {}", normalise(&a)));
             }
@@ -254,15 +261,20 @@ fn main() {
             run.cov("loom_pass_note", "not built: see the Miri verdict");
         }
         Ok(()) => {
-            let cfgs: Vec<(u32, usize, usize)> = if quick { vec![(2, 2, 2)] } else { vec![(2, 2, 3), (2, 3, 2), (3, 2, 2)] };
-            for (t, k, b) in cfgs {
+            // (profile, threads, creations, preemption bound, height of the hand-built path-shaped treaps)
+            let cfgs: Vec<(&str, u32, usize, usize, usize)> = if quick {
+                vec![("release", 2, 2, 2, 70), ("dbg", 2, 2, 2, 70)]
+            } else {
+                vec![("release", 2, 2, 3, 150), ("release", 2, 3, 2, 0), ("release", 3, 2, 2, 70), ("dbg", 2, 2, 3, 150), ("dbg", 3, 2, 2, 70)]
+            };
+            for (profile, t, k, b, tall) in cfgs {
                 let cap_s: u64 = if quick { 45 } else { 900 };
-                let lo = match loom_pass(t, k, b, cap_s) {
+                let lo = match loom_pass(profile, t, k, b, cap_s, tall) {
                     Ok(l) => l,
                     Err(m) => run.machinery_failure(&m),
                 };
-                let rep = json!({"pass": "loom", "threads": t, "k": k, "bound": b, "cap_s": cap_s});
-                loom_summ.push(json!({"threads": t, "creations_per_thread": k, "preemption_bound": b,
+                let rep = json!({"pass": "loom", "profile": profile, "threads": t, "k": k, "bound": b, "cap_s": cap_s, "tall": tall});
+                loom_summ.push(json!({"build": profile, "threads": t, "creations_per_thread": k, "preemption_bound": b, "tall_treap_nodes": tall,
                     "serialised_executions": lo.serial_execs, "serialised_outcomes": lo.serial_outcomes,
                     "unserialised_executions": lo.par_execs, "unserialised_outcomes": lo.par_outcomes,
                     "distinct_first_draws_of_main": lo.main_values, "source_rewrites": lo.rewrites, "static_mut_in_source": lo.has_static_mut,
@@ -279,7 +291,7 @@ fn main() {
                         loom_limit = Some(format!("threads={t}, creations={k}, preemption bound {b}: {a}"));
                         continue;
                     }
-                    run.violation(Violation::new(format!("loom-abort:t={t}:k={k}:b={b}"), format!("loom aborted an execution (threads={t}, creations={k}, preemption bound {b}): {a}"), rep.clone()));
+                    run.violation(Violation::new(format!("loom-abort:{profile}:t={t}:k={k}:b={b}"), format!("loom aborted an execution (threads={t}, creations={k}, preemption bound {b}): {a}"), rep.clone()));
                     continue;
                 }
                 if lo.main_values > 1 {
@@ -297,7 +309,7 @@ fn main() {
                 }
                 if let Some(bad) = lo.bad.first() {
                     let fam = if bad.starts_with("BAD_RESULTS") { "results" } else { "not-serialisable" };
-                    run.violation(Violation::new(format!("loom:{fam}:t={t}:k={k}:b={b}"), format!("unserialised execution (threads={t}, creations={k}, preemption bound {b}): {bad}"), rep));
+                    run.violation(Violation::new(format!("loom:{fam}:{profile}:t={t}:k={k}:b={b}"), format!("unserialised execution (threads={t}, creations={k}, preemption bound {b}): {bad}"), rep));
                 }
                 if lo.bad.is_empty() && (lo.par_execs < 2 || lo.serial_execs < 2) {
                     run.machinery_failure("loom explored fewer than two schedules");
@@ -315,7 +327,7 @@ fn main() {
     if let Some(l) = &loom_limit {
         run.cov("loom_pass_note", format!("loom could not model this tree ({l}); the verdict rests on the Miri pass alone"));
     }
-    run.cov("rule", "loom DPOR with the stated preemption bound over the 2-3 thread harness (each thread: k node creations through from_item/insert_at, merge, split, remove, collect on a treap it owns, a merge/split of three nodes with hand-set EQUAL priorities whose resulting shape must equal the solo run's, and the {:?} / TreePrinter renderings of both treaps, which must equal the renderings made again after all threads were joined; a panic inside a thread's operations is a result like any other and differs from the solo run; explored twice: a helper thread creates one node and is joined before the threads are spawned, and 'cold' where the threads' first creations are the first of the process); every source file of the treap crate is copied and rerouted, so new modules and statics are covered; every execution runs the treap crate's own source with its shared state rerouted to loom; `transitions` = complete schedules executed (serialised reference + unserialised), `states` = distinct unserialised outcomes; each loom execution is a distinct schedule");
+    run.cov("rule", "loom DPOR with the stated preemption bound over the 2-3 thread harness (each thread: k node creations through from_item/insert_at, merge, split, remove, collect on a treap it owns, a merge/split of three nodes with hand-set EQUAL priorities whose resulting shape must equal the solo run's, and the {:?} / TreePrinter renderings of both treaps, which must equal the renderings made again after all threads were joined; a panic inside a thread's operations is a result like any other and differs from the solo run; explored twice: a helper thread creates one node and is joined before the threads are spawned, and 'cold' where the threads' first creations are the first of the process; a third exploration gives every thread a hand-built path-shaped treap as tall as it is large and runs split / merge / remove / insert down its whole spine, so that anything shared per level of recursion is exercised on all threads at once), in two builds of the pass (optimised; debug assertions + overflow checks); every source file of the treap crate is copied and rerouted, so new modules and statics are covered; every execution runs the treap crate's own source with its shared state rerouted to loom; `transitions` = complete schedules executed (serialised reference + unserialised), `states` = distinct unserialised outcomes; each loom execution is a distinct schedule");
     run.assume("loom models the primitives that build.rs reroutes (thread_local!, std::sync, std::thread, non-mut statics); accesses it does not intercept (static mut, raw UnsafeCell) are covered only by the free-running Miri pass, one execution per configuration");
     if !race_found && execs == 0 && loom_limit.is_none() {
         run.machinery_failure("no loom execution was counted");
